@@ -41,10 +41,10 @@ def gen_c09_stack(rng):
         r = rng.random()
         if r < 0.5:
             layers.append({"t": "xtw", "transform": tree(3)})
-        elif r < 0.65 and not collators:
-            cfgs = [{"n": rng.choice([1, 2]), "transform": tree(2)} for _ in range(rng.randint(1, 2))]
+        elif r < 0.72 and not collators:
+            cfgs = [{"n": rng.choice([1, 2]), "transform": tree(2)} for _ in range(rng.choice([1, 2, 2, 3]))]
             layers.append({"t": "multiview", "configs": cfgs})
-        elif r < 0.75:
+        elif r < 0.8:
             layers.append({"t": "mix", "p": rng.choice([0.5, 1.0]), "alpha": 0.8})
         else:
             layers.append(S.gen_layer(rng, n))
@@ -54,10 +54,16 @@ def gen_c09_stack(rng):
     rest = [l for l in layers if l["t"] not in ("multiview", "mix", "labelsmooth", "classfilter")]
     if mv:
         mix = []
+        if rest and rest[-1]["t"] == "xtw":
+            rest.append({"t": "shuffle", "seed": 1})  # multi-view directly above a stochastic x-transform wrapper is refused
+    if mix:
+        rest = [l for l in rest if l["t"] == "xtw"]  # only wrappers implementing the fused loader may sit above the mix wrapper
     layers = mix + rest + mv
     if "mix" in collators and not mix:
         layers.append({"t": "onehot"})  # the mix collator expects one-hot labels
     container = None if mv else rng.choice([None, None, None, "concat", "interleaved"])
+    if mix and container == "concat":
+        container = "interleaved"
     return {"root": {"kind": "tensor", "n": n}, "layers": layers, "collators": collators, "container": container}
 
 
